@@ -29,13 +29,22 @@ use identity_verification::VerificationMethod;
 use std::io::Write;
 
 #[derive(Clone, Copy, PartialEq, Eq, Debug, PartialOrd, Ord)]
-struct Id {
-  did: u32,
-  pq: u32,
-  frag: Option<u32>,
+pub(crate) struct Id {
+  pub did: u32,
+  pub pq: u32,
+  pub frag: Option<u32>,
 }
 
-fn pq_str(pq: u32) -> &'static str {
+thread_local! {
+  /// 'C': ids are did:ex:d<n>; 'I': ids are IOTA DIDs (tag bytes all n*0x11)
+  pub(crate) static KIND: std::cell::Cell<char> = std::cell::Cell::new('C');
+  /// fragment strings that are not of the form k<n> (JWK kids), by number
+  pub(crate) static FRAGS: std::cell::RefCell<Vec<(String, u32)>> = std::cell::RefCell::new(vec![]);
+  /// JWK kid -> key material number
+  pub(crate) static BODIES: std::cell::RefCell<Vec<(String, u32)>> = std::cell::RefCell::new(vec![]);
+}
+
+pub(crate) fn pq_str(pq: u32) -> &'static str {
   match pq {
     0 => "",
     1 => "/p",
@@ -43,41 +52,56 @@ fn pq_str(pq: u32) -> &'static str {
     _ => "/p?q=1",
   }
 }
-fn did_str(d: u32) -> String {
-  format!("did:ex:d{}", d)
+pub(crate) fn did_str(d: u32) -> String {
+  if KIND.with(|k| k.get()) == 'I' {
+    format!("did:iota:0x{}", format!("{:02x}", (d * 0x11) as u8).repeat(32))
+  } else {
+    format!("did:ex:d{}", d)
+  }
 }
-fn id_str(i: Id) -> String {
-  format!("{}{}{}", did_str(i.did), pq_str(i.pq), i.frag.map(|f| format!("#k{}", f)).unwrap_or_default())
+pub(crate) fn frag_str(f: u32) -> String {
+  FRAGS.with(|t| t.borrow().iter().find(|(_, n)| *n == f).map(|(s, _)| s.clone())).unwrap_or_else(|| format!("k{}", f))
 }
-fn parse_id(t: &str) -> Option<Id> {
+pub(crate) fn id_str(i: Id) -> String {
+  format!("{}{}{}", did_str(i.did), pq_str(i.pq), i.frag.map(|f| format!("#{}", frag_str(f))).unwrap_or_default())
+}
+pub(crate) fn parse_id(t: &str) -> Option<Id> {
   let p: Vec<&str> = t.split('.').collect();
   if p.len() != 3 {
     return None;
   }
   Some(Id { did: p[0].parse().ok()?, pq: p[1].parse().ok()?, frag: if p[2] == "~" { None } else { Some(p[2].parse().ok()?) } })
 }
-fn parse_idb(t: &str) -> Option<(Id, u32)> {
+pub(crate) fn parse_idb(t: &str) -> Option<(Id, u32)> {
   let (a, b) = t.rsplit_once('.')?;
   Some((parse_id(a)?, b.parse().ok()?))
 }
-fn id_of(u: &DIDUrl) -> Id {
-  let did = u.did().method_id().trim_start_matches('d').parse().unwrap_or(999);
+pub(crate) fn id_of(u: &DIDUrl) -> Id {
+  let mid = u.did().method_id();
+  let did = match mid.strip_prefix("0x") {
+    Some(h) if h.len() >= 2 => u32::from_str_radix(&h[..2], 16).map(|b| b / 0x11).unwrap_or(999),
+    _ => mid.trim_start_matches('d').parse().unwrap_or(999),
+  };
   let pq = match (u.path().filter(|p| !p.is_empty()), u.query().filter(|q| !q.is_empty())) {
     (None, None) => 0,
     (Some(_), None) => 1,
     (None, Some(_)) => 2,
     (Some(_), Some(_)) => 3,
   };
-  let frag = u.fragment().filter(|f| !f.is_empty()).map(|f| f.trim_start_matches('k').parse().unwrap_or(999));
+  let frag = u.fragment().filter(|f| !f.is_empty()).map(|f| {
+    FRAGS
+      .with(|t| t.borrow().iter().find(|(s, _)| s == f).map(|(_, n)| *n))
+      .unwrap_or_else(|| f.trim_start_matches('k').parse().unwrap_or(999))
+  });
   Id { did, pq, frag }
 }
-fn show_frag(f: Option<u32>) -> String {
+pub(crate) fn show_frag(f: Option<u32>) -> String {
   f.map(|x| x.to_string()).unwrap_or_else(|| "~".into())
 }
-fn show_id(i: Id) -> String {
+pub(crate) fn show_id(i: Id) -> String {
   format!("{}.{}.{}", i.did, i.pq, show_frag(i.frag))
 }
-fn method_json(i: Id, body: u32) -> String {
+pub(crate) fn method_json(i: Id, body: u32) -> String {
   format!(
     r#"{{"id":"{}","controller":"{}","type":"Ed25519VerificationKey2018","publicKeyMultibase":"z{}"}}"#,
     id_str(i),
@@ -85,28 +109,31 @@ fn method_json(i: Id, body: u32) -> String {
     body
   )
 }
-fn service_json(i: Id, body: u32) -> String {
+pub(crate) fn service_json(i: Id, body: u32) -> String {
   format!(r#"{{"id":"{}","type":"T","serviceEndpoint":"https://e.x/{}"}}"#, id_str(i), body)
 }
-fn show_method(m: &VerificationMethod) -> String {
+pub(crate) fn show_method(m: &VerificationMethod) -> String {
   let body = match m.data() {
     MethodData::PublicKeyMultibase(s) => s.trim_start_matches('z').to_string(),
+    MethodData::PublicKeyJwk(j) => BODIES
+      .with(|t| t.borrow().iter().find(|(k, _)| Some(k.as_str()) == j.kid()).map(|(_, n)| n.to_string()))
+      .unwrap_or_else(|| "?".into()),
     _ => "?".into(),
   };
   format!("{}.{}", show_id(id_of(m.id())), body)
 }
-fn show_service(s: &Service) -> String {
+pub(crate) fn show_service(s: &Service) -> String {
   let ep = s.service_endpoint().to_string();
   let body = ep.rsplit('/').next().unwrap_or("?").trim_matches('"').to_string();
   format!("{}.{}", show_id(id_of(s.id())), body)
 }
-fn show_ref(r: &MethodRef) -> String {
+pub(crate) fn show_ref(r: &MethodRef) -> String {
   match r {
     MethodRef::Embed(m) => format!("E{}", show_method(m)),
     MethodRef::Refer(u) => format!("R{}", show_id(id_of(u))),
   }
 }
-fn rel_of(n: u32) -> Option<MethodRelationship> {
+pub(crate) fn rel_of(n: u32) -> Option<MethodRelationship> {
   Some(match n {
     0 => MethodRelationship::Authentication,
     1 => MethodRelationship::AssertionMethod,
@@ -116,14 +143,14 @@ fn rel_of(n: u32) -> Option<MethodRelationship> {
     _ => return None,
   })
 }
-fn scope_of(t: &str) -> Option<MethodScope> {
+pub(crate) fn scope_of(t: &str) -> Option<MethodScope> {
   if t == "vm" {
     Some(MethodScope::VerificationMethod)
   } else {
     Some(MethodScope::VerificationRelationship(rel_of(t.parse().ok()?)?))
   }
 }
-fn show_scope(s: MethodScope) -> &'static str {
+pub(crate) fn show_scope(s: MethodScope) -> &'static str {
   match s {
     MethodScope::VerificationMethod => "vm",
     MethodScope::VerificationRelationship(MethodRelationship::Authentication) => "0",
@@ -134,9 +161,13 @@ fn show_scope(s: MethodScope) -> &'static str {
   }
 }
 
-fn show_doc(d: &CoreDocument) -> String {
+pub(crate) fn show_doc(d: &CoreDocument) -> String {
   let j = |v: Vec<String>| v.join(",");
-  let id = d.id().method_id().trim_start_matches('d').to_string();
+  let mid = d.id().method_id();
+  let id = match mid.strip_prefix("0x") {
+    Some(h) if h.len() >= 2 => (u32::from_str_radix(&h[..2], 16).unwrap_or(0) / 0x11).to_string(),
+    _ => mid.trim_start_matches('d').to_string(),
+  };
   format!(
     "D{};vm={};a0={};a1={};a2={};a3={};a4={};sv={}",
     id,
@@ -150,14 +181,14 @@ fn show_doc(d: &CoreDocument) -> String {
   )
 }
 
-struct Spec {
-  id: u32,
-  vm: Vec<(Id, u32)>,
-  rels: [Vec<Result<(Id, u32), Id>>; 5],
-  sv: Vec<(Id, u32)>,
+pub(crate) struct Spec {
+  pub id: u32,
+  pub vm: Vec<(Id, u32)>,
+  pub rels: [Vec<Result<(Id, u32), Id>>; 5],
+  pub sv: Vec<(Id, u32)>,
 }
 
-fn parse_spec(t: &str) -> Option<Spec> {
+pub(crate) fn parse_spec(t: &str) -> Option<Spec> {
   let mut parts = t.split(';');
   let id: u32 = parts.next()?.strip_prefix('D')?.parse().ok()?;
   let mut spec = Spec { id, vm: vec![], rels: Default::default(), sv: vec![] };
@@ -180,14 +211,14 @@ fn parse_spec(t: &str) -> Option<Spec> {
   Some(spec)
 }
 
-fn ref_json(e: &Result<(Id, u32), Id>) -> String {
+pub(crate) fn ref_json(e: &Result<(Id, u32), Id>) -> String {
   match e {
     Ok((i, b)) => method_json(*i, *b),
     Err(i) => format!("\"{}\"", id_str(*i)),
   }
 }
 
-fn doc_from_json(s: &Spec) -> Option<CoreDocument> {
+pub(crate) fn doc_json(s: &Spec) -> String {
   let names = ["authentication", "assertionMethod", "keyAgreement", "capabilityDelegation", "capabilityInvocation"];
   let mut j = format!("{{\"id\":\"{}\"", did_str(s.id));
   j += &format!(",\"verificationMethod\":[{}]", s.vm.iter().map(|(i, b)| method_json(*i, *b)).collect::<Vec<_>>().join(","));
@@ -195,16 +226,20 @@ fn doc_from_json(s: &Spec) -> Option<CoreDocument> {
     j += &format!(",\"{}\":[{}]", name, s.rels[n].iter().map(ref_json).collect::<Vec<_>>().join(","));
   }
   j += &format!(",\"service\":[{}]}}", s.sv.iter().map(|(i, b)| service_json(*i, *b)).collect::<Vec<_>>().join(","));
-  CoreDocument::from_json(&j).ok()
+  j
 }
 
-fn mk_method(i: Id, b: u32) -> Option<VerificationMethod> {
+pub(crate) fn doc_from_json(s: &Spec) -> Option<CoreDocument> {
+  CoreDocument::from_json(&doc_json(s)).ok()
+}
+
+pub(crate) fn mk_method(i: Id, b: u32) -> Option<VerificationMethod> {
   VerificationMethod::from_json(&method_json(i, b)).ok()
 }
-fn mk_service(i: Id, b: u32) -> Option<Service> {
+pub(crate) fn mk_service(i: Id, b: u32) -> Option<Service> {
   Service::from_json(&service_json(i, b)).ok()
 }
-fn mk_url(i: Id) -> Option<DIDUrl> {
+pub(crate) fn mk_url(i: Id) -> Option<DIDUrl> {
   DIDUrl::parse(id_str(i)).ok()
 }
 fn mk_ref(e: &Result<(Id, u32), Id>) -> Option<MethodRef> {
@@ -241,7 +276,7 @@ fn doc_from_builder(s: &Spec) -> Option<CoreDocument> {
 }
 
 /// the three id clauses of the property, computed from the accessors alone
-fn id_clauses(d: &CoreDocument) -> Option<String> {
+pub(crate) fn id_clauses(d: &CoreDocument) -> Option<String> {
   let rels = [d.authentication(), d.assertion_method(), d.key_agreement(), d.capability_delegation(), d.capability_invocation()];
   let mut embedded: Vec<String> = d.verification_method().iter().map(|m| m.id().to_string()).collect();
   let mut rel_embedded: Vec<String> = vec![];
@@ -293,11 +328,11 @@ fn check_after(d: &CoreDocument, fail: &mut Option<String>, op: &str) {
   }
 }
 
-fn query_strings(form: &str, i: Id) -> Option<String> {
+pub(crate) fn query_strings(form: &str, i: Id) -> Option<String> {
   Some(match form {
     "S" => id_str(i),
-    "H" => format!("#{}", i.frag.map(|f| format!("k{}", f)).unwrap_or_default()),
-    "B" => i.frag.map(|f| format!("k{}", f)).unwrap_or_default(),
+    "H" => format!("#{}", i.frag.map(frag_str).unwrap_or_default()),
+    "B" => i.frag.map(frag_str).unwrap_or_default(),
     _ => return None,
   })
 }
@@ -475,11 +510,11 @@ pub fn run(args: &[&str]) -> String {
 }
 
 // ---------------------------------------------------------------------------------------------------------
-fn show_idb(i: Id, b: u32) -> String {
+pub(crate) fn show_idb(i: Id, b: u32) -> String {
   format!("{}.{}", show_id(i), b)
 }
 
-fn spec_line(id: u32, vm: &[(Id, u32)], rels: &[Vec<Result<(Id, u32), Id>>; 5], sv: &[(Id, u32)]) -> String {
+pub(crate) fn spec_line(id: u32, vm: &[(Id, u32)], rels: &[Vec<Result<(Id, u32), Id>>; 5], sv: &[(Id, u32)]) -> String {
   let e = |x: &Result<(Id, u32), Id>| match x {
     Ok((i, b)) => format!("E{}", show_idb(*i, *b)),
     Err(i) => format!("R{}", show_id(*i)),
